@@ -279,7 +279,7 @@ class ConstEval(object):
         return NAN
       return math.fmod(a, b) if abs(b) != INF else a
     if name in ("reshape", "variable", "identity", "cast", "repeat",
-                "stop_gradient"):
+                "stop_gradient", "tile", "expand_dims"):
       return self(args[0])
     if len(args) == 1:
       return _unary(name, self(args[0]))
